@@ -32,7 +32,7 @@ func init() {
 			"argument names drawn from valid and invalid strings without blanks (lower case, digit first, OPTIONS, symbols, brackets, '...', empty). Oracle: the call panics iff an option name was already taken / the argument name is not " +
 			"^[A-Z][A-Z0-9_]*$, is OPTIONS, or is a duplicate; for sequences without conflict every listed name (one letter -> -x, longer -> --xx) given on a command line sets exactly its own variable and no other. " +
 			"Name lists repeating a name within one declaration are generated but not judged. non-trivial = sequence of >=2 declarations; distinct by the sequence.",
-		Assumptions: []string{"after the first panicking declaration the sequence is abandoned (the application object is not meant to be used further)"},
+		Assumptions: []string{"a sequence goes on after a recovered panic; what a rejected option declaration leaves behind (the names it listed before the colliding one) is unspecified and not judged, but names taken by accepted declarations must stay taken"},
 		Cases:       tiered(60000, 2000000),
 		Floor:       tiered(6000, 200000),
 		Run:         runC18,
@@ -56,6 +56,8 @@ func runC18(c *core.Ctx) {
 	inSub := r.Intn(3) == 0
 	k := 1 + r.Intn(6)
 	usedOpt := map[string]bool{}
+	maybeOpt := map[string]bool{}
+	afterPanic := false
 	usedArg := map[string]bool{}
 	aborted := false
 	declared := 0
@@ -69,10 +71,17 @@ func runC18(c *core.Ctx) {
 				for _, pi := range perm[:cnt] {
 					names = append(names, c18OptNames[pi])
 				}
-				collide := false
-				for _, nm := range names {
+				collide, maybe := false, false
+				firstHit := -1
+				for i, nm := range names {
 					if usedOpt[nm] {
 						collide = true
+						if firstHit < 0 {
+							firstHit = i
+						}
+					}
+					if maybeOpt[nm] {
+						maybe = true
 					}
 				}
 				o := od{names: names}
@@ -124,15 +133,26 @@ func runC18(c *core.Ctx) {
 					return false
 				}()
 				c.Eval()
-				if panicked != collide {
+				if panicked != collide && !(maybe && !collide) {
 					violation = fmt.Sprintf("option declaration %q: panicked=%v, a name was already taken=%v", joined, panicked, collide)
 					aborted = true
 					return
 				}
 				if panicked {
+					// the sequence goes on after the recovered panic: the earlier owners must keep their names. What a
+					// rejected declaration leaves behind is unspecified: the names it listed before the colliding one
+					// may or may not be taken now
 					c.Inc("option_collisions_caught")
-					aborted = true
-					return
+					afterPanic = true
+					for i, nm := range names {
+						if (firstHit < 0 || i < firstHit) && !usedOpt[nm] {
+							maybeOpt[nm] = true
+						}
+					}
+					continue
+				}
+				if afterPanic {
+					c.Inc("declarations_after_a_recovered_panic")
 				}
 				declared++
 				c.Inc("options_declared")
@@ -181,8 +201,8 @@ func runC18(c *core.Ctx) {
 					} else {
 						c.Inc("invalid_argument_names_caught")
 					}
-					aborted = true
-					return
+					afterPanic = true
+					continue
 				}
 				declared++
 				c.Inc("arguments_declared")
@@ -228,7 +248,7 @@ func runC18(c *core.Ctx) {
 	if shared {
 		c.Inc("sequences_with_shared_destination")
 	}
-	if oi < 0 || inSub || shared {
+	if oi < 0 || inSub || shared || len(maybeOpt) > 0 {
 		// (for a subcommand the variables belong to an initializer run that is over; addressing is checked on the root)
 		return
 	}
@@ -265,6 +285,28 @@ func runC18(c *core.Ctx) {
 		}
 	}
 	c.Inc("names_address_own_variable")
+	// after a Run the option table must still refuse a colliding declaration
+	if len(opts) > 0 {
+		victim := opts[r.Intn(len(opts))]
+		nm := victim.names[r.Intn(len(victim.names))] + " fresh-name"
+		steps = append(steps, fmt.Sprintf("after-run opt(%q)", nm))
+		c.Journal(map[string]interface{}{"declarations": steps})
+		panicked := func() (p bool) {
+			defer func() {
+				if recover() != nil {
+					p = true
+				}
+			}()
+			app.BoolOpt(nm, false, "")
+			return false
+		}()
+		c.Eval()
+		if !panicked {
+			c.Violation(fmt.Sprintf("after a Run, declaring %q (its first name is taken) does not panic", nm), map[string]interface{}{"declarations": steps}, nil)
+			return
+		}
+		c.Inc("collisions_after_run_caught")
+	}
 	if len(pickName) == 1 {
 		c.Inc("used_as_short")
 	} else {
